@@ -1119,3 +1119,50 @@ def oracle_priorities(evs, meta=None):
                 if any(prs[k] < prs[k + 1] for k in range(len(prs) - 1)):
                     return "agent %s stream %s: check list not in descending pair-priority order: %s" % (e.f[0], m.group(1), prs)
     return None
+
+
+# ------------------------------------------------------------------ C19 at agent level: a check on a black-holed pair is sent exactly N times on schedule
+def gen_blackhole(rng, i):
+    """two agents (reliable = pseudo-TCP over UDP candidates, or not), configured N transmissions, every path between them black-holed in
+    both directions: each connectivity check must be transmitted exactly N times, RTO, 2 RTO, 4 RTO ... apart, where RTO = max(500 ms, Ta * pairs
+    waiting or in progress) as RFC 8445 section 14 and priv_compute_conncheck_timer say (stun-initial-timeout governs discovery, not checks)."""
+    rel = OPT_RELIABLE if rng.random() < 0.5 else 0
+    opts = tuple(rel | rng.choice([0, OPT_REGULAR]) for _ in (0, 1))
+    ncomp = rng.choice([1, 1, 2])
+    ips = tuple(tuple("10.0.%d.%d" % (a, k + 1) for k in range(rng.choice([1, 1, 2]))) for a in (0, 1))
+    N = rng.choice([1, 2, 3, 3, 4, 5]); T = rng.choice([20, 50, 100, 200, 500])
+    ops = two_agents(rng, 0, opts, rng.choice([(1, 0), (0, 1)]), ips, ncomp)
+    for a in (0, 1):
+        ops += ["prop,%d,stun-max-retransmissions,%d" % (a, N), "prop,%d,stun-initial-timeout,%d" % (a, T)]
+    for x in ips[0]:
+        for y in ips[1]:
+            ops += ["hole,%s,%s,on" % (x, y), "hole,%s,%s,on" % (y, x)]
+    ops.append("net,0,0,1,%d,3" % rng.choice([1, 30]))
+    ops += ["gather,0,1", "gather,1,1", "run,20"] + signalling(rng, ncomp, order=1)
+    ops += ["run,%d" % (500 * (2 ** N) + 4000), "digest"] + final_queries(ncomp)
+    return "hole%d %s" % (i, " ".join(ops)), {"kind": "blackhole", "ncomp": ncomp, "N": N, "T": T, "reliable": bool(rel)}
+
+
+def oracle_blackhole(evs, meta):
+    N, T = meta["N"], meta["T"]
+    tx = {}
+    for e in evs:
+        if e.kind == "pkt" and len(e.f) > 5 and e.f[2] == "blackhole" and e.f[3] == "stun" and e.f[4] == "c0" and e.f[5] == "m1":
+            tid = [x for x in e.f if x.startswith("tid=")][0]
+            tx.setdefault((e.f[0], e.f[1], tid), []).append(e.t)
+    if not tx:
+        return None
+    end = max(e.t for e in evs)
+    for (src, dst, tid), ts in tx.items():
+        # a check first sent so late that its schedule does not fit before the scenario ends is not judged
+        if ts[0] + 500 * (2 ** N) + 500 > end:
+            continue
+        if len(ts) != N:
+            return ("connectivity check %s -> %s (%s) on a black-holed pair was transmitted %d times, stun-max-retransmissions is %d (agent %s)"
+                    % (src, dst, tid, len(ts), N, "reliable, UDP candidates" if meta["reliable"] else "unreliable"))
+        for k in range(1, len(ts)):
+            want = 500 * (2 ** (k - 1)); gap = ts[k] - ts[k - 1]      # at most 8 pairs: Ta * pairs = 160 ms < 500 ms
+            # the retransmission is made by the Ta = 20 ms conncheck tick following the deadline
+            if not (want <= gap <= want + 45):
+                return "connectivity check %s -> %s: retransmission %d came %d ms after the previous transmission, the schedule says %d ms" % (src, dst, k, gap, want)
+    return None
